@@ -22,6 +22,13 @@ package main
 import (
 	"bufio"
 	"bytes"
+	"crypto/ecdsa"
+	"crypto/elliptic"
+	"crypto/rand"
+	"crypto/x509"
+	"crypto/x509/pkix"
+	"encoding/pem"
+	"math/big"
 	"encoding/json"
 	"fmt"
 	"net/url"
@@ -383,6 +390,7 @@ func after(s *section, c comp, f *common.C15Field, o *obs) {
 		}
 	}
 	c2 := s.def.mk()
+	setBase(c2, reloadBase)
 	if guard(func() error { return c2.LoadJSON(j1) }) == "ok" {
 		j2, r2 := toJSON(c2)
 		if r2 == "ok" && bytes.Equal(j1, j2) {
@@ -452,11 +460,31 @@ func fullFile(override map[string]interface{}) map[string]interface{} {
 	return file
 }
 
-func loadFile(raw []byte, s *section, f *common.C15Field) obs {
+// reloadBase: base directory given to the fresh object that re-loads a saved configuration ("" = none)
+var reloadBase string
+
+func setBase(c comp, dir string) {
+	if b, ok := c.(interface{ SetBaseDir(string) }); ok && dir != "" {
+		b.SetBaseDir(dir)
+	}
+}
+
+// loadFile loads a full configuration file through config.Manager: from memory (at == "") or written to
+// and read from the path `at` (the Manager then gives every component the file's directory as base dir;
+// the saved form is written next to it and loaded from there by a second Manager).
+func loadFile(raw []byte, s *section, f *common.C15Field, at string) obs {
 	var o obs
 	m, comps := newManager()
 	defer m.Shutdown()
-	o.res = guard(func() error { return m.LoadJSON(raw) })
+	if at != "" {
+		if err := os.WriteFile(at, raw, 0600); err != nil {
+			o.res = "infra"
+			return o
+		}
+		o.res = guard(func() error { return m.LoadJSONFromFile(at) })
+	} else {
+		o.res = guard(func() error { return m.LoadJSON(raw) })
+	}
 	o.eff, o.eff2, o.gotTok = "-", "-", "-"
 	if o.res != "ok" {
 		return o
@@ -491,7 +519,16 @@ func loadFile(raw []byte, s *section, f *common.C15Field) obs {
 	}
 	m2, comps2 := newManager()
 	defer m2.Shutdown()
-	if guard(func() error { return m2.LoadJSON(j1) }) == "ok" {
+	reload := func() error { return m2.LoadJSON(j1) }
+	if at != "" {
+		at2 := filepath.Join(filepath.Dir(at), "resaved.json")
+		if err := os.WriteFile(at2, j1, 0600); err != nil {
+			o.res = "infra"
+			return o
+		}
+		reload = func() error { return m2.LoadJSONFromFile(at2) }
+	}
+	if guard(reload) == "ok" {
 		var j2 []byte
 		if guard(func() error {
 			var err error
@@ -843,6 +880,14 @@ func runSet(c setCase) {
 	if s.bad {
 		return
 	}
+	if strings.Contains(c.val, scratchMark) || strings.Contains(c.noise, scratchMark) {
+		if _, ok := baseDir(true); !ok {
+			out.Line("# inconclusive base directory under VERIF_SCRATCH could not be prepared")
+			return
+		}
+		c.val = strings.ReplaceAll(c.val, scratchMark, scratchAbs)
+		c.noise = strings.ReplaceAll(c.noise, scratchMark, esc(scratchAbs))
+	}
 	v, err := decodeAny(c.val)
 	if err != nil {
 		out.Line("# bad-value %s", c.val)
@@ -893,7 +938,7 @@ func runSet(c setCase) {
 		}
 		setPath(m, f.Path, v)
 		file := fullFile(map[string]interface{}{s.def.name: m})
-		o = loadFile([]byte(compact(file)), s, f)
+		o = loadFile([]byte(compact(file)), s, f, "")
 	case "env", "envalt":
 		ev, ok := envString(v)
 		if !ok {
@@ -922,12 +967,44 @@ func runSet(c setCase) {
 		if o.res == "ok" {
 			after(s, obj, f, &o)
 		}
+	case "basealone-abs", "basealone-rel", "basefile-abs", "basefile-rel":
+		dir, ok := baseDir(strings.HasSuffix(c.mode, "-abs"))
+		if !ok {
+			out.Line("# inconclusive base directory under VERIF_SCRATCH could not be prepared")
+			return
+		}
+		setPath(m, f.Path, v)
+		if strings.HasPrefix(c.mode, "basealone") {
+			obj := s.def.mk()
+			setBase(obj, dir)
+			o.res = guard(func() error { return obj.LoadJSON([]byte(compact(m))) })
+			o.eff, o.eff2, o.gotTok = "-", "-", "-"
+			if o.res == "ok" {
+				reloadBase = dir
+				after(s, obj, f, &o)
+				reloadBase = ""
+			}
+		} else {
+			if s.def.typ < 0 {
+				return
+			}
+			file := fullFile(map[string]interface{}{s.def.name: m})
+			o = loadFile([]byte(compact(file)), s, f, filepath.Join(dir, "service.json"))
+			if o.res == "infra" {
+				out.Line("# inconclusive configuration file could not be written under VERIF_SCRATCH")
+				return
+			}
+		}
 	default:
 		out.Line("# bad-mode %s", c.mode)
 		return
 	}
-	out.Line("C15 set %s %s %s vc=%s val=%s noise=%s %s want=%s cur=%s deff=%s => %s",
+	line := fmt.Sprintf("C15 set %s %s %s vc=%s val=%s noise=%s %s want=%s cur=%s deff=%s => %s",
 		c.mode, s.def.name, f.JSONPath(), c.vc, esc(c.val), c.noise, rowTokens(s, f), want, cur, deff, o.String())
+	if scratchAbs != "" {
+		line = strings.ReplaceAll(line, esc(scratchAbs), scratchMark) // keep case lines machine independent
+	}
+	out.Line("%s", line)
 }
 
 func runDefault(s *section) {
@@ -1012,20 +1089,20 @@ func runShape(where, secName, variant string) {
 		if err != nil {
 			return
 		}
-		o = loadFile([]byte(compact(fullFile(map[string]interface{}{secName: v}))), s, nil)
+		o = loadFile([]byte(compact(fullFile(map[string]interface{}{secName: v}))), s, nil, "")
 	case "missing":
 		if s == nil || s.def.typ < 0 {
 			return
 		}
-		o = loadFile([]byte(compact(fullFile(map[string]interface{}{secName: absentT{}}))), s, nil)
+		o = loadFile([]byte(compact(fullFile(map[string]interface{}{secName: absentT{}}))), s, nil, "")
 	case "raw":
 		raw, ok := rawVariants[variant]
 		if !ok {
 			return
 		}
-		o = loadFile([]byte(raw), nil, nil)
+		o = loadFile([]byte(raw), nil, nil, "")
 	case "rawbytes":
-		o = loadFile([]byte(variant), nil, nil)
+		o = loadFile([]byte(variant), nil, nil, "")
 	case "group":
 		// a whole section group ("consensus", "api", ..., or "cluster") of an otherwise default file replaced
 		v, err := decodeAny(variant)
@@ -1034,7 +1111,7 @@ func runShape(where, secName, variant string) {
 		}
 		file := fullFile(nil)
 		file[secName] = v
-		o = loadFile([]byte(compact(file)), nil, nil)
+		o = loadFile([]byte(compact(file)), nil, nil, "")
 	default:
 		return
 	}
@@ -1120,6 +1197,127 @@ func allFields() []fref {
 	return l
 }
 
+// ---------- base directories (paths of a configuration are resolved against the directory of its file) ----------
+
+const scratchMark = "VERIFSCRATCH" // stands for the absolute scratch directory in case lines
+
+var (
+	scratchAbs     string // <VERIF_SCRATCH>/c15base, absolute
+	baseAbs        string // scratchAbs/abs
+	baseRel        string // scratchAbs/rel, relative to the working directory
+	basePrepared   bool
+	basePreparedOK bool
+)
+
+// writeKeyPair generates a self-signed ECDSA certificate and its key as PEM files.
+func writeKeyPair(crt, key string) error {
+	priv, err := ecdsa.GenerateKey(elliptic.P256(), rand.Reader)
+	if err != nil {
+		return err
+	}
+	tmpl := &x509.Certificate{SerialNumber: big.NewInt(15), Subject: pkix.Name{CommonName: "verif-c15"},
+		NotBefore: time.Now().Add(-time.Hour), NotAfter: time.Now().Add(24 * 365 * time.Hour),
+		KeyUsage: x509.KeyUsageDigitalSignature, ExtKeyUsage: []x509.ExtKeyUsage{x509.ExtKeyUsageServerAuth}}
+	der, err := x509.CreateCertificate(rand.Reader, tmpl, tmpl, &priv.PublicKey, priv)
+	if err != nil {
+		return err
+	}
+	kb, err := x509.MarshalECPrivateKey(priv)
+	if err != nil {
+		return err
+	}
+	if err := os.WriteFile(crt, pem.EncodeToMemory(&pem.Block{Type: "CERTIFICATE", Bytes: der}), 0600); err != nil {
+		return err
+	}
+	return os.WriteFile(key, pem.EncodeToMemory(&pem.Block{Type: "EC PRIVATE KEY", Bytes: kb}), 0600)
+}
+
+// baseDir prepares (once) two configuration directories under VERIF_SCRATCH, each with tls/server.{crt,key}
+// on disk, and returns the absolute one or the one relative to the working directory.
+func baseDir(abs bool) (string, bool) {
+	if !basePrepared {
+		basePrepared = true
+		root := os.Getenv("VERIF_SCRATCH")
+		if root == "" {
+			root = "build/scratch/C15"
+		}
+		a, err := filepath.Abs(filepath.Join(root, "c15base"))
+		cwd, err2 := os.Getwd()
+		if err == nil && err2 == nil {
+			scratchAbs = a
+			baseAbs = filepath.Join(a, "abs")
+			rel, err3 := filepath.Rel(cwd, filepath.Join(a, "rel"))
+			ok := err3 == nil && !filepath.IsAbs(rel)
+			baseRel = rel
+			for _, d := range []string{baseAbs, filepath.Join(a, "rel")} {
+				if os.MkdirAll(filepath.Join(d, "tls"), 0700) != nil || os.MkdirAll(filepath.Join(d, "sub"), 0700) != nil {
+					ok = false
+					continue
+				}
+				crt, key := filepath.Join(d, "tls", "server.crt"), filepath.Join(d, "tls", "server.key")
+				if _, e := os.Stat(key); e != nil {
+					if writeKeyPair(crt, key) != nil {
+						ok = false
+					}
+				}
+			}
+			basePreparedOK = ok
+		}
+	}
+	if !basePreparedOK {
+		return "", false
+	}
+	if abs {
+		return baseAbs, true
+	}
+	return baseRel, true
+}
+
+type pathField struct {
+	sec, path, pair string // pair: the key that must be set alongside (TLS)
+}
+
+// settings whose value is a path resolved against the base directory (tlsOptions at load time; the
+// getters getHTTPLogPath, getLogPath, GetPeerstorePath, GetDataFolder, GetFolder afterwards)
+var pathFields = []pathField{
+	{"restapi", "ssl_cert_file", "ssl_key_file"}, {"restapi", "ssl_key_file", "ssl_cert_file"}, {"restapi", "http_log_file", ""},
+	{"ipfsproxy", "log_file", ""}, {"cluster", "peerstore_file", ""}, {"raft", "data_folder", ""},
+	{"badger", "folder", ""}, {"leveldb", "folder", ""},
+}
+
+// baseCases: every path setting, relative and absolute values, under an absolute and a relative base
+// directory, on a bare object (kind "basealone") or through a Manager file in that directory ("basefile").
+func baseCases(kind string) {
+	for _, pf := range pathFields {
+		s := byName[pf.sec]
+		if s == nil || s.bad {
+			continue
+		}
+		f := fieldByPath(s, pf.path)
+		if f == nil {
+			continue
+		}
+		for _, b := range []string{"abs", "rel"} {
+			mode := kind + "-" + b
+			if pf.pair != "" {
+				name := map[string]string{"ssl_cert_file": "server.crt", "ssl_key_file": "server.key"}
+				relV := func(k string) string { return strconv.Quote("tls/" + name[k]) }
+				absV := func(k string) string { return strconv.Quote(scratchMark + "/" + b + "/tls/" + name[k]) }
+				dotV := func(k string) string { return strconv.Quote("./tls/../tls/" + name[k]) }
+				for _, mk := range []func(string) string{relV, absV, dotV} {
+					runSet(setCase{mode, s, f, mk(pf.path), "wf", pf.pair + ":=" + esc(mk(pf.pair))})
+				}
+				runSet(setCase{mode, s, f, relV(pf.path), "wf", pf.pair + ":=" + esc(absV(pf.pair))})
+				runSet(setCase{mode, s, f, strconv.Quote("tls/missing.pem"), "mal", pf.pair + ":=" + esc(relV(pf.pair))})
+				continue
+			}
+			for _, v := range []string{`"sub/verif.dat"`, `"` + scratchMark + `/abs/sub/verif.dat"`, `"./sub/../sub/verif.dat"`, `"../verif.dat"`, `"verif.dat"`} {
+				runSet(setCase{mode, s, f, v, "wf", "-"})
+			}
+		}
+	}
+}
+
 func tlsCases() {
 	repo := common.C15Repo()
 	crt, key := filepath.Join(repo, "api/rest/test/server.crt"), filepath.Join(repo, "api/rest/test/server.key")
@@ -1152,6 +1350,7 @@ func boundary(suite string, tier string) {
 			}
 		}
 		tlsCases()
+		baseCases("basealone")
 		// one malformed setting next to one well-formed setting of the same section
 		for _, s := range sections {
 			for i := range s.schema.Fields {
@@ -1182,6 +1381,7 @@ func boundary(suite string, tier string) {
 		}
 	case "file":
 		runDefaultFile()
+		baseCases("basefile")
 		for _, fr := range fields {
 			for _, p := range pool(fr.f) {
 				runSet(setCase{"file", fr.s, fr.f, p.json, p.vc, "-"})
